@@ -230,3 +230,24 @@ func H_Unbond() {
 	vrf.Assert(s.env.W.BalOf(modAddr, usdc).Equal(s.cash.Sub(paid)), "C06 unbond: the vault's cash shrinks by exactly what is paid out")
 	s.check("unbond")
 }
+
+// Governance's MsgUpdateParams carries a whole Params record (TotalValue included): the vault's stated value is not a
+// parameter governance sets - whatever the message says, TotalValue stays what the ledger made it.
+//
+//vrf:cover updated
+//vrf:bound symbolic vault state (one debt + remainder); MsgUpdateParams from the governance authority with a symbolic TotalValue and interest parameters in the message
+func H_Gov_UpdateParams_KeepsTotalValue() {
+	s := setup(true, 0)
+	env, ctx := s.env, s.env.Ctx
+	np := sstypes.DefaultParams()
+	np.TotalValue = vrf.Int("messageTotalValue")
+	np.InterestRate = vrf.Dec("messageRate")
+	vrf.Assume(!np.TotalValue.IsNegative())
+	vrf.Assume(!np.InterestRate.IsNegative())
+	srv := sskeeper.NewMsgServerImpl(*env.Stable)
+	if _, err := srv.UpdateParams(ctx, &sstypes.MsgUpdateParams{Authority: wire.Gov, Params: &np}); err != nil {
+		return
+	}
+	vrf.Cover("updated")
+	s.check("governance update-params")
+}
